@@ -296,3 +296,50 @@ Qed.
 Example unchained_batch_rejected_nonvacuous :
   batch_soa_ok true 62 unchained_witness_old = false.
 Proof. vm_compute. reflexivity. Qed.
+
+(* the statement of the property for such streams: the offending batch is
+   refused, and whatever prefix of the stream was applied before, readers see a
+   version that was reached by difference sequences that chain *)
+Theorem unchained_rejected snew ds1 d ds2 old :
+  chain_ok true ds1 old ->
+  batch_soa_ok true (d_old d) (fold_left (fun z x => apply_diff_z x z) ds1 old) = false ->
+  u_apply_all true (ixfr_upds snew (ds1 ++ d :: ds2)) (u_start old) = Err E_SoaMismatch /\
+  (forall us1 us2 st, us1 ++ us2 = ixfr_upds snew (ds1 ++ d :: ds2) ->
+     u_apply_all true us1 (u_start old) = Ok st ->
+     u_fin st = false /\ In (u_visible st) (scan ds1 old)).
+Proof.
+  intros C B.
+  destruct (u_diffs true ds1 old old C) as [v' A].
+  assert (Esplit : exists tl, ixfr_upds snew (ds1 ++ d :: ds2) =
+            concat (map diff_upds ds1) ++ UBeginDel (d_old d) :: tl).
+  { unfold ixfr_upds. rewrite map_app, concat_app. cbn [map concat]. unfold diff_upds at 2.
+    rewrite <- app_assoc. cbn [app]. eexists. reflexivity. }
+  destruct Esplit as [tl Esplit].
+  split.
+  - rewrite Esplit, (Proofs2.u_apply_all_app true). unfold u_start. rewrite A. cbn [bind].
+    apply unchained_batch_rejected. exact B.
+  - intros us1 us2 st E H. rewrite Esplit in E.
+    apply app_eq_app in E as [m [[E1 E2]|[E1 E2]]].
+    + (* us1 reaches past the chained part *)
+      destruct m as [|x m].
+      * rewrite app_nil_r in E1. subst us1. unfold u_start in H. rewrite A in H. inversion H; subst. cbn.
+        split; [reflexivity|].
+        destruct (prefix_diffs true ds1 old old _ [] C (app_nil_r _)) as [st2 [A2 V]].
+        rewrite A in A2. inversion A2; subst. cbn in V. destruct V as [V|V]; [rewrite V; apply scan_head|exact V].
+      * exfalso. cbn [app] in E2. inversion E2 as [[Hx Hm]]. subst x us1.
+        rewrite (Proofs2.u_apply_all_app true) in H. unfold u_start in H. rewrite A in H. cbn [bind] in H.
+        rewrite (unchained_batch_rejected _ _ _ m B) in H. discriminate.
+    + (* us1 inside the chained part *)
+      destruct (prefix_diffs true ds1 old old us1 m C (eq_sym E1)) as [st2 [A2 V]].
+      unfold u_start in H. rewrite A2 in H. inversion H; subst st2. split.
+      * destruct m as [|x m].
+        { rewrite app_nil_r in E1. subst us1. rewrite A in A2. inversion A2; subst. reflexivity. }
+        { rewrite E1, (Proofs2.u_apply_all_app true), A2 in A. cbn [bind] in A.
+          eapply (u_not_fin_before true). exact A. }
+      * destruct V as [V|V]; [rewrite V; apply scan_head|exact V].
+Qed.
+
+Example unchained_rejected_nonvacuous :
+  u_apply_all true (ixfr_upds 64 ([] ++ mkDiff 62 [5; 11] 64 [12] :: [])) (u_start unchained_witness_old)
+  = Err E_SoaMismatch.
+Proof. vm_compute. reflexivity. Qed.
